@@ -373,35 +373,35 @@ def _predicates(F, r5):
         r5.site("check_status: supported type → RevocationBitmapStatus::try_from ✓ → issuer by extract_issuer → check_revocation_bitmap_status")
     # ---- check_revocation_bitmap_status
     fn = U + "::check_revocation_bitmap_status"
-    h = F.hir(fn)
-    if r5.anchor(h, fn):
-        env = H.Env(h)
-        tree, infos = L.exit_infos(h)
-        for e in infos:
-            revs = []
-            for c in e.conds:
-                if c[0] == "if":
-                    cc = H.strip(c[1])
-                    if cc.get("k") == "mcall" and (H.fn_name(cc) or "").endswith("RevocationBitmap::is_revoked"):
-                        revs.append(c[2])
-                        io = H.origins(cc["args"][0], env, accessors=ACC)
-                        r5.require(io == {("param", "status", "index")}, (fn, "index-arg"), "is_revoked is not queried with status.index(): %s" % sorted(map(str, io)))
-                        bo = H.origins(cc["recv"], env)
-                        r5.require(bool(bo) and all(o[0] == "call" and o[1].endswith("::resolve_revocation_bitmap") for o in bo), (fn, "bitmap-src"),
-                                   "the bitmap queried is not the one resolved from the issuer document: %s" % sorted(map(str, bo)))
-            if L.is_success_exit(e):
-                r5.require(revs == [False], (fn, "ok-iff-not-revoked"), "Ok is not exactly the `!is_revoked(index)` branch", e.node.get("sp"))
-                r5.site("check_revocation_bitmap_status: Ok iff !is_revoked(status.index())", e.node.get("sp"))
-            elif e.outcome == "Err(Revoked)":
-                r5.require(revs == [True], (fn, "revoked-iff"), "Err(Revoked) is not exactly the `is_revoked(index)` branch", e.node.get("sp"))
-        r5.require(any(e.outcome == "Err(Revoked)" for e in infos), (fn, "revoked-error"), "Revoked is never reported")
-        for c in H.calls(h, re.compile(r"resolve_revocation_bitmap$")):
-            a = H.call_args(c)
-            o0 = H.origins(a[0], env)
-            o1 = H.origins(a[1], env, accessors=ACC)
-            r5.site("resolve_revocation_bitmap(issuer ← %s, query ← %s)" % (sorted(map(str, o0)), sorted(map(str, o1))), c["sp"])
-            r5.require(o0 == {("param", "issuer")}, (fn, "bitmap-issuer"), "bitmap not resolved in the issuer document")
-            r5.require(o1 == {("param", "status", "id")}, (fn, "bitmap-query"), "bitmap service not looked up by status.id(): %s" % sorted(map(str, o1)))
+    if r5.anchor(F.hir(fn), fn):
+        # on the decision table: Ok exactly when is_revoked(bitmap resolved in the issuer document by status.id(), status.index()) is
+        # false; true → Err(Revoked); every earlier failure is an error
+        tab = SR.Table(F, fn, opaque=r"resolve_revocation_bitmap$|RevocationBitmap::is_revoked$|RevocationBitmapStatus::(index|id)$", rule=r5)
+        ST_, IS_ = SR.param("status"), SR.param("issuer")
+        rows = set()
+        for q in tab.paths:
+            rb = q.calls(r"resolve_revocation_bitmap$")
+            iv = q.calls(r"RevocationBitmap::is_revoked$")
+            ix = [e for e in q.calls(r"RevocationBitmapStatus::index$") if SR.pure(e.args[0], ST_)]
+            idc = [e for e in q.calls(r"RevocationBitmapStatus::id$") if SR.pure(e.args[0], ST_)]
+            if SR.is_success(q.ret) and not SR.is_failure(q.ret):
+                good = len(iv) == 1 and q.succeeded(iv[0]) is False
+                r5.require(good, (fn, "ok-iff-not-revoked"), "Ok is not exactly the `!is_revoked(index)` branch — path: %s" % q.describe()[-160:])
+                if good:
+                    rows.add("ok")
+                    r5.require(len(rb) == 1 and q.succeeded(rb[0]) is True and SR.pure(iv[0].args[0], ("payload", rb[0].result.t, "Ok", 0)), (fn, "bitmap-src"), "the bitmap queried is not the one resolved from the issuer document")
+                    r5.require(bool(ix) and q.succeeded(ix[0]) is True and SR.pure(iv[0].args[1], ("payload", ix[0].result.t, "Ok", 0)), (fn, "index-arg"), "is_revoked is not queried with status.index(): %s" % sym.fmt(sym.term(iv[0].args[1])))
+                    r5.require(SR.pure(rb[0].args[0], IS_), (fn, "bitmap-issuer"), "bitmap not resolved in the issuer document")
+                    r5.require(bool(idc) and SR.derives(rb[0].args[1], idc[0].result.t), (fn, "bitmap-query"), "bitmap service not looked up by status.id(): %s" % sym.fmt(sym.term(rb[0].args[1])))
+            elif SR.err_name(q.ret) == "Revoked":
+                r5.require(len(iv) == 1 and q.succeeded(iv[0]) is True, (fn, "revoked-iff"), "Err(Revoked) is not exactly the `is_revoked(index)` branch")
+                rows.add("revoked")
+            else:
+                rows.add("error")
+                r5.require(not iv or q.succeeded(iv[0]) is None, (fn, "revoked-iff"), "a decided is_revoked ends in %s" % SR.err_name(q.ret))
+        r5.site("check_revocation_bitmap_status: rows %s; Ok iff !is_revoked(resolve_revocation_bitmap(issuer, status.id()), status.index())" % sorted(rows))
+        r5.require("revoked" in rows or not tab.paths, (fn, "revoked-error"), "Revoked is never reported")
+        r5.require("ok" in rows or not tab.paths, (fn, "ok-iff-not-revoked"), "check_revocation_bitmap_status never accepts")
     # ---- Credential::check_structure
     fn = CRED + "::check_structure"
     h = F.hir(fn)
@@ -450,5 +450,5 @@ def _predicates(F, r5):
                     okl = True
                     r5.site("check_structure: each subject with no id and no properties → InvalidSubject", node["sp"])
         r5.require(okl, (fn, "empty-subject"), "the per-subject emptiness check (id.is_none() && properties.is_empty() → InvalidSubject over all subjects) was not found")
-    r5.floor(14)
+    r5.floor(13)
 
